@@ -30,9 +30,9 @@ PROPS = {
     'C02': P('C02', 48000, 4000000, modules=['D128.Props.C02', 'D128.Props.C02Quo', 'D128.Proofs.Words128Div'] + KERNEL + PROLOGUE + SPECM, kernel=ROUNDING_KERNELS),
     'C03': P('C03', 32000, 2000000, modules=['D128.Props.C03', 'D128.Proofs.Words128Div'] + KERNEL + PROLOGUE + SPECM, kernel=['U128.div', 'U128.mul64', 'RoundingMode.reduce128', 'RoundingMode.round']),
     'C04': P('C04', 16000, 1500000, modules=['D128.Props.C04'] + SPECM, kernel=['U128.cmp', 'U128.div1*', 'U128.div10*', 'Decimal.Cmp', 'Decimal.CmpAbs', 'Decimal.Equal']),
-    'C05': P('C05', 32000, 2000000, modules=['D128.Props.C05', 'D128.Props.C05Value'] + KERNEL, kernel=['parseNumber', 'parse', 'RoundingMode.reduce128', 'Decimal.Scan', 'MustParse'], extra_gens=['FMT']),
-    'C06': P('C06', 16000, 1500000, modules=['D128.Props.C06', 'D128.Props.C06b', 'D128.Props.C05', 'D128.Props.C05Value'] + KERNEL, kernel=['Decimal.digits_', 'U128.div100', 'parseNumber', 'RoundingMode.reduce128', 'digits.fmtE', 'digits.fmtF', 'Decimal.appendSpecial', 'Decimal.String', 'Decimal.MarshalText', 'Format', 'Append', 'Decimal.Format', 'Decimal.writeSpecial', 'Decimal.Scan'], extra_gens=['FMT']),
-    'C07': P('C07', 16000, 1500000, modules=['D128.Props.C07', 'D128.Props.C07b'], kernel=['digits.round', 'parseFormat', 'Decimal.digits_', 'formatArgs.*', 'digits.fmtE', 'digits.fmtF', 'digits.pad', 'Decimal.appendSpecial', 'Decimal.format', 'Decimal.Append', 'Append', 'Format', 'Decimal.String', 'Decimal.MarshalText', 'Decimal.Format', 'Decimal.writeSpecial'], extra_gens=['FMT']),
+    'C05': P('C05', 32000, 2000000, modules=['D128.Props.C05', 'D128.Props.C05Value', 'D128.Props.C05Scan'] + KERNEL, kernel=['parseNumber', 'parse', 'RoundingMode.reduce128', 'Decimal.Scan', 'MustParse'], extra_gens=['FMT']),
+    'C06': P('C06', 16000, 1500000, modules=['D128.Props.C06', 'D128.Props.C06b', 'D128.Props.C07c', 'D128.Props.C05', 'D128.Props.C05Value', 'D128.Props.C05Scan'] + KERNEL, kernel=['Decimal.digits_', 'U128.div100', 'parseNumber', 'RoundingMode.reduce128', 'digits.fmtE', 'digits.fmtF', 'Decimal.appendSpecial', 'Decimal.String', 'Decimal.MarshalText', 'Format', 'Append', 'Decimal.Format', 'Decimal.writeSpecial', 'Decimal.Scan'], extra_gens=['FMT']),
+    'C07': P('C07', 16000, 1500000, modules=['D128.Props.C07', 'D128.Props.C07b', 'D128.Props.C07c'], kernel=['digits.round', 'parseFormat', 'Decimal.digits_', 'formatArgs.*', 'digits.fmtE', 'digits.fmtF', 'digits.pad', 'Decimal.appendSpecial', 'Decimal.format', 'Decimal.Append', 'Append', 'Format', 'Decimal.String', 'Decimal.MarshalText', 'Decimal.Format', 'Decimal.writeSpecial'], extra_gens=['FMT']),
     'C08': P('C08', 32000, 3000000, modules=['D128.Props.C08', 'D128.Props.C15'] + KERNEL + SPECM, kernel=['RoundingMode.round', 'composeQuantum', 'U128.div10', 'U128.add64']),
     'C09': P('C09', 16000, 1500000, modules=['D128.Props.C09', 'D128.Props.C09b'] + KERNEL + WIDE, kernel=['FromFloat64', 'FromFloat32', 'Decimal.Float64', 'Decimal.Float32', 'FromFloat', 'Decimal.Float', 'U256.lsh', 'U256.rsh', 'U256.div10', 'U256.mul64', 'U128.mul1e38', 'RoundingMode.reduce256'], kernel_n={Q: 4000, T: 400000}),
     'C10': P('C10', 32000, 3000000, modules=['D128.Props.C10', 'D128.Props.C10b', 'D128.Props.C10c', 'D128.Props.C02Quo'] + KERNEL, kernel=['U128.div10', 'U128.mul64', 'RoundingMode.reduce128', 'RoundingMode.round', 'Decimal.Int64_', 'Decimal.Uint64', 'Decimal.Int32_', 'Decimal.Uint32', 'FromInt', 'FromRat', 'Decimal.Int_', 'Decimal.Rat']),
